@@ -68,7 +68,16 @@ def build_driver(work, race=False):
             cmd.insert(2, "-race")
         cmd.append(".")
         t0 = time.time()
-        p = subprocess.run(cmd, cwd=HARNESS, env=GOENV, capture_output=True, text=True)
+        hdir = HARNESS
+        if os.path.realpath(REPO) != "/repo":
+            # VERIF_REPO (used by lib/seedtool.py to check a scratch worktree carrying a seeded change while /repo itself is
+            # in use): build a copy of the harness whose replace directive points there
+            hdir = work.path("harness-src")
+            shutil.rmtree(hdir, ignore_errors=True)
+            shutil.copytree(HARNESS, hdir)
+            gm = open(os.path.join(hdir, "go.mod")).read().replace("=> /repo", "=> " + os.path.realpath(REPO))
+            open(os.path.join(hdir, "go.mod"), "w").write(gm)
+        p = subprocess.run(cmd, cwd=hdir, env=GOENV, capture_output=True, text=True)
         if p.returncode != 0:
             raise Infra("driver build failed (does /repo compile?):\n" + p.stdout + p.stderr)
         log("[build] driver%s built in %.1fs" % (" (race)" if race else "", time.time() - t0))
@@ -367,8 +376,12 @@ class Run:
         ev = {"property_id": self.prop, "tier": self.tier, "seed": self.seed, "level": self.level, "coverage": cov,
               "assumptions": self.assumptions, "wall_s": round(time.time() - self.t0, 2),
               "violations": len(self.violations), "known_findings": [k for k, _ in self.known], "notes": self.notes}
-        os.makedirs(EVID, exist_ok=True)
-        json.dump(ev, open(os.path.join(EVID, self.prop + ".json"), "w"), indent=1)
+        # evidence/ only ever describes runs against /repo itself; runs pointed at a scratch tree (VERIF_REPO) write elsewhere
+        evdir = EVID if os.path.realpath(REPO) == "/repo" else os.path.join(ROOT, ".work", "evidence-scratch")
+        if evdir != EVID:
+            ev["repo"] = os.path.realpath(REPO)
+        os.makedirs(evdir, exist_ok=True)
+        json.dump(ev, open(os.path.join(evdir, self.prop + ".json"), "w"), indent=1)
         for k, what in self.known:
             print("KNOWN-FINDING: property=%s %s" % (self.prop, what))
         for sig, path, text in self.violations:
